@@ -17,24 +17,6 @@ def vclass(v):
     return v[5:].split(":")[0]
 
 
-def lean_obligations(c, theorems, module):
-    """Check.lean_obligations restricted to this property's modules + the driver (other properties'
-    modules under construction must not decide this check)."""
-    ok, out = lake_build((module, "drv"))
-    c.oblige("lake build %s drv" % module, ok, out[-3000:] if not ok else "")
-    hits = [h for h in forbidden_scan() if "/Builder/" in h or "/Props/C16" in h or "/Props/C17" in h or "BuilderDrv" in h]
-    c.oblige("no sorry/admit/axiom/native_decide/bv_decide/implemented_by/unsafe in the builder model and property files", not hits, hits[:10])
-    if not ok:
-        for t in theorems:
-            c.oblige("theorem " + t, False, "build failed")
-        return False
-    res, text = audit(theorems, (module,))
-    for t in theorems:
-        o, ax = res[t]
-        c.oblige("theorem %s (axioms: %s)" % (t, ",".join(ax) or "none"), o, text[-1500:] if not o else "")
-    return all(res[t][0] for t in theorems)
-
-
 def main():
     c = Check("C16")
     if os.path.exists(PROPOSED):  # proposed entries, until merged into known_findings.json
@@ -47,9 +29,9 @@ def main():
         "the ordered map of objects as an association list (C19 refinement theorem); Schemas.ResolveToType with fuel = number of objects + 1 (sufficiency validated by the streams: the harness detects cycles with a visited set and observes the real stack overflow in a child process)",
         "the implementation-side oracle harness/c16_oracle.go (independent restatement of the property on the real output)",
     ]
-    hb, err = build_go("verifharness", "harness")
+    hb, err = build_go("verifharness", "harness", files=HARNESS_BASE + ["vir_builders.go", "c16_*.go"], tag="c16")
     c.oblige("harness builds against /repo working tree", hb is not None, err)
-    lean_obligations(c, THEOREMS, "Cog.Props.C16")
+    c.lean_obligations(THEOREMS)
     if hb is None:
         c.finish("lake build && lake env lean <audit>", "n/a")
 
